@@ -59,6 +59,15 @@ def gen_cases(rng, tier):
         n = rng.choice([-2, -1, 0, 1, 2, 3, 4, 5, 7, 8, 9, 15, 16, 17, 31, 33, 64, 70])
         lb = min(l, 130)
         yield {'op': rng.choice(['mul', 'rmul', 'imul']), 'cls': rng.choice(CLASSES), 'bits': bits[:lb], 'n': n, 'route': rng.choice(ROUTES), 'lsb0': rng.random() < 0.25}
+        # the count as an object of another Integral kind (bool, int subclasses, IntEnum, fixed-width numpy integers whose own arithmetic would overflow: D67);
+        # numpy scalars only on the right (on the left numpy's own __mul__ answers)
+        if rng.random() < 0.5:
+            from props import c16
+            o = rng.choice(['mul', 'imul', 'rmul'])
+            t = rng.choice(c16.NTYPES if o != 'rmul' else [x for x in c16.NTYPES if x not in c16.NP_TYPES])
+            m = rng.choice([0, 1, 2, 3, 5, 17, 100, 120, 127, 200, 255, -1])
+            if c16.ntype_ok('mul', 'pure', m, t):
+                yield {'op': o, 'cls': rng.choice(CLASSES), 'bits': bits[:min(l, 24)], 'n': m, 'ntype': t, 'route': rng.choice(ROUTES), 'lsb0': rng.random() < 0.25}
     for n in [1000, 1023, 1024, 1025, 4097]:
         yield {'op': 'mul', 'cls': 'Bits', 'bits': rand_bits(rng, rng.randrange(1, 4)), 'n': n, 'route': 'bin'}
     # history: the result of an operation depends only on the operands' bits, hence not on what was evaluated earlier in the process. A case of any of the kinds
@@ -409,11 +418,15 @@ def run_impl(c):
         return attempt(f)
     if op in ('mul', 'rmul', 'imul'):
         def f():
+            cnt = c['n']
+            if c.get('ntype'):
+                from props import c16
+                cnt = c16.as_count(c['n'], c['ntype'])
             if op == 'imul':
                 if c['cls'] not in MUTABLE: return ['skip']
-                t = s; t *= c['n']; r = t
+                t = s; t *= cnt; r = t
             else:
-                r = s * c['n'] if op == 'mul' else c['n'] * s
+                r = s * cnt if op == 'mul' else cnt * s
             return [r.bin, type(r).__name__]
         return attempt(f)
     raise AssertionError(op)
